@@ -22,6 +22,9 @@ name = "hashcons"
 M61 = (1 << 61) - 1
 # values whose Python hashes collide: hash(-1) == hash(-2), hash(k) == hash(k + 2**61 - 1)
 COLLIDING = [[-1, -2], [5, 5 + M61], [0, M61], [7, 7 - M61], [1, 1]]
+# values that are == (and hash alike) for Python but are different contents: an annotation class with an honest __eq__
+# calls the annotations equal, the expressions that carry them are different expressions all the same
+EQ_PAIRS = [[0, False], [1, True], [0, 0.0], [1, 1.0]]
 
 _USER = {}
 
@@ -181,6 +184,9 @@ def gen_ann(r: Rng):
         return ["REG", r.choice(["global", "stack"]), v]
     if k < 55:
         return ["UNINIT"]
+    if k >= 55 and k < 92 and r.chance(25):
+        v = r.choice(r.choice(EQ_PAIRS))
+        return [r.choice(["ContentAnn", "ConstHashAnn", "TwinHashAnn"]), v]
     if k < 70:
         return ["ContentAnn", v]
     if k < 82:
@@ -309,8 +315,19 @@ def generate(prop, seed, idx, opts):
             ops.append({"op": "gc"})
         elif k < 82:
             ops.append({"op": "pickle", "slot": s, "proto": r.choice([2, 4, 5])})
+        elif k < 84:
+            # an annotated node, then the same node re-annotated with an annotation that its class calls EQUAL to the one
+            # it carries although the contents differ
+            pair = r.choice(EQ_PAIRS)
+            cls = r.choice(["ContentAnn", "TwinHashAnn", "ConstHashAnn"])
+            i0 = r.below(2)
+            leaf = gen_leaf(r) if r.chance(60) else gen_bv8(r, 1)
+            ops.append({"op": "build", "slot": s, "spec": ["ann", [[cls, pair[i0]]], leaf]})
+            ops.append({"op": "reannotate", "slot": s, "how": r.choice(["replace", "annotate_remove", "replace", "remove", "append"]),
+                        "ann": [cls, pair[1 - i0]], "dst": r.below(nslots)})
         elif k < 90:
-            ops.append({"op": "reannotate", "slot": s, "how": r.choice(["append", "insert", "remove", "clear", "annotate"]),
+            ops.append({"op": "reannotate", "slot": s, "how": r.choice(["append", "insert", "remove", "clear", "annotate", "replace",
+                                                                        "annotate_remove"]),
                         "ann": gen_ann(r), "dst": r.below(nslots)})
         elif k < 95:
             ops.append({"op": "downsize"})
@@ -462,12 +479,26 @@ def execute(rec):
                         n = a.remove_annotation(ann)
                     elif how == "clear":
                         n = a.clear_annotations()
+                    elif how == "replace":
+                        n = a.replace_annotations((ann,))
+                    elif how == "annotate_remove":
+                        n = a.annotate(ann, remove_annotations=a.annotations)
                     else:
                         n = a.annotate(ann)
                 except claripy.errors.ClaripyError:
                     continue
                 if deep(a, claripy) != before:
                     raise Broken("annotation-change-mutated-original", {"op_index": i, "spec": specs[op["slot"]], "how": how})
+                # the annotation API's own contract: the result is the same node with exactly this annotation tuple
+                ad = lambda x: json.dumps([type(x).__name__, sorted((kk, repr(vv)) for kk, vv in vars(x).items())])  # noqa: E731
+                have = [ad(x) for x in a.annotations]
+                want = {"append": have + [ad(ann)], "annotate": have + [ad(ann)], "insert": [ad(ann)] + have, "clear": [],
+                        "replace": [ad(ann)], "annotate_remove": [ad(ann)]}.get(how)
+                if want is not None:
+                    got = [ad(x) for x in n.annotations]
+                    if got != want or n.op != a.op or n.args is not a.args and deep(n.clear_annotations(), claripy) != deep(a.clear_annotations(), claripy):
+                        raise Broken("reannotation-result-differs", {"op_index": i, "spec": specs[op["slot"]], "how": how,
+                                                                     "ann": op["ann"], "got": got, "want": want})
                 slots[op["dst"]] = n
                 specs[op["dst"]] = [how, op["ann"], specs[op["slot"]]]
             check_pairs(i)
